@@ -92,6 +92,32 @@ func init() {
 	}
 	add("pd.ParseRef(http://h/a/b,?x)", func(e *c14Env) string { return resOf(e.pd.ParseRef("http://h/a/b", "?x")) })
 	add("pd.PercentEncodeString", func(e *c14Env) string { return e.pd.PercentEncodeString("a b%é{", url.PathPercentEncodeSet) })
+	// setters and list operations on a thread-PRIVATE URL that belongs to the shared Parser (every Url points
+	// back to its parser): the parser must not be written through them
+	privOps := func(p func(e *c14Env) url.Parser) func(e *c14Env) string {
+		return func(e *c14Env) string {
+			u, err := p(e).Parse("http://u@h:81/p?b=2&a=1#f")
+			if err != nil {
+				return "ERR:" + err.Error()
+			}
+			u.SetUsername("a b%é")
+			u.SetPassword("p:w")
+			u.SetHost("0x7f.1:82")
+			u.SetPathname("/x/../y z")
+			u.SetSearch("?q=%zz&r")
+			u.SearchParams().Append("k", "v w")
+			u.SearchParams().Sort()
+			u.SetHash("#a b")
+			u.SetProtocol("https")
+			c := u.Clone()
+			c.SetPort("")
+			return resOf(u, nil) + "|" + resOf(c, nil)
+		}
+	}
+	add("pd.private-setters", privOps(func(e *c14Env) url.Parser { return e.pd }))
+	add("po.private-setters", privOps(func(e *c14Env) url.Parser { return e.po }))
+	add("url.private-setters", privOps(func(e *c14Env) url.Parser { return canonicalizer.WhatWg }))
+	add("Semantic.private-setters", privOps(func(e *c14Env) url.Parser { return canonicalizer.Semantic }))
 	for _, in := range []string{"http://h//a//b/%zz?q=%", "http://h\x80\x81.x/", "HTTP://a%b/?x y"} {
 		in := in
 		add("po.Parse("+in+")", func(e *c14Env) string { return resOf(e.po.Parse(in)) })
@@ -482,6 +508,9 @@ func c14Body(c *fw.Ctx) {
 	for i := 0; i < len(names); i++ {
 		for j := i; j < len(names); j++ {
 			same := c14Group(names[i]) == c14Group(names[j])
+			if !c.Thorough() && (names[i] == "url.private-setters" || names[j] == "url.private-setters" || names[i] == "Semantic.private-setters" || names[j] == "Semantic.private-setters") {
+				continue // thorough tier only (long calls); pd./po. private setters stay in the quick tier
+			}
 			if c.Thorough() || same || names[i] == generic || names[j] == generic {
 				scenarios = append(scenarios, c14Scenario{Threads: [][]string{{names[i]}, {names[j]}}})
 			}
